@@ -1,7 +1,8 @@
 (* Tie_Source: what lib/srcgen.py regenerated from /repo's sources on this run (GEN.Gen_Source) is the FIPS 180-4 /
    RFC 4648 object the models, specs and theorems of HV are about.  Hand-written and fixed; only Gen_Source.v changes.
    Every theorem is for ALL words / arrays (no bound): the generated definitions are open terms in x, w, wv, j. *)
-From HV Require Import Base_Bytes Spec_SHA Spec_Base64 Spec_Base32 Spec_Base36.
+From HV Require Import Base_Bytes Spec_SHA Spec_Base64 Spec_Base32 Spec_Base36 Model_Sha1Transform.
+From Coq Require Import Lia Arith.
 From GEN Require Import Gen_Source.
 From Coq Require Import List NArith.
 Import ListNotations.
@@ -47,6 +48,52 @@ Theorem tie_512_round : forall a b c d e f g h w j,
   S512.src_round 64 [a; b; c; d; e; f; g; h] w j = sha2_round P512 [a; b; c; d; e; f; g; h] (nth (N.to_nat j) K512 0, nth (N.to_nat j) w 0).
 Proof. intros; reflexivity. Qed.
 
+(* ---- SHA-1 (src/sha1.cpp macros) against the code-shaped model Model_Sha1Transform, which C01_sha1_transform proves FIPS ---- *)
+Lemma land_word (x : N) : x < 2 ^ 32 -> N.land x 0xffffffff = x.
+Proof. intro H. change 0xffffffff with (N.ones 32). rewrite N.land_ones. apply N.mod_small; exact H. Qed.
+Lemma log2_word (x : N) : x < 2 ^ 32 -> N.log2 x < 32.
+Proof. intro H. destruct (N.eq_dec x 0) as [->|Hn]; [reflexivity|]. apply N.log2_lt_pow2; [lia|exact H]. Qed.
+Lemma lxor_word (x y : N) : x < 2 ^ 32 -> y < 2 ^ 32 -> N.lxor x y < 2 ^ 32.
+Proof.
+  intros Hx Hy. destruct (N.eq_dec (N.lxor x y) 0) as [->|Hn]; [reflexivity|].
+  apply N.log2_lt_pow2; [lia|]. eapply N.le_lt_trans; [apply N.log2_lxor|].
+  apply N.max_lub_lt; apply log2_word; assumption.
+Qed.
+(* SHA1_ROL (with its `& 0xffffffff`) is the 32-bit left rotation on every 32-bit word *)
+Theorem tie_sha1_rol : forall x n, x < 2 ^ 32 -> S1.src_SHA1_ROL 32 x n = rol32 n x.
+Proof. intros x n H. unfold S1.src_SHA1_ROL. rewrite (land_word x H). reflexivity. Qed.
+(* the five round macros: z += f(w,x,y) + W_i + K + ROL(v,5); w = ROL(w,30), with the model's boolean functions and the FIPS constants *)
+Definition model_R (f : N -> N -> N -> N) (k v w x y z wi : N) : N * N :=
+  (wadd 32 z (wadd 32 (wadd 32 (wadd 32 (f w x y) wi) k) (S1.src_SHA1_ROL 32 v 5)), S1.src_SHA1_ROL 32 w 30).
+Theorem tie_sha1_rounds : forall v w x y z wi,
+  S1.src_SHA1_R0 32 v w x y z wi = model_R f_r01 (sha1_K 0) v w x y z wi /\
+  S1.src_SHA1_R1 32 v w x y z wi = model_R f_r01 (sha1_K 16) v w x y z wi /\
+  S1.src_SHA1_R2 32 v w x y z wi = model_R f_r24 (sha1_K 20) v w x y z wi /\
+  S1.src_SHA1_R3 32 v w x y z wi = model_R f_r3 (sha1_K 40) v w x y z wi /\
+  S1.src_SHA1_R4 32 v w x y z wi = model_R f_r24 (sha1_K 60) v w x y z wi.
+Proof. intros; repeat split; reflexivity. Qed.
+(* SHA1_BLK(i): the slot written and the word computed are the model's circular-schedule update, for every round index and every block of 32-bit words *)
+Definition blk_idx_ok (i : nat) : bool :=
+  let n := N.of_nat i in
+  Nat.eqb (N.to_nat (S1.src_SHA1_BLK_index 32 n)) (Nat.modulo i 16) && Nat.eqb (N.to_nat (N.land (wadd 32 n 13) 15)) (Nat.modulo (i + 13) 16) &&
+  Nat.eqb (N.to_nat (N.land (wadd 32 n 8) 15)) (Nat.modulo (i + 8) 16) && Nat.eqb (N.to_nat (N.land (wadd 32 n 2) 15)) (Nat.modulo (i + 2) 16).
+Lemma blk_idx_sweep : forallb blk_idx_ok (seq 0 80) = true.   Proof. vm_compute. reflexivity. Qed.
+Theorem tie_sha1_blk : forall block i, (i < 80)%nat -> (forall k, nth k block 0 < 2 ^ 32) ->
+  N.to_nat (S1.src_SHA1_BLK_index 32 (N.of_nat i)) = (i mod 16)%nat /\
+  S1.src_SHA1_BLK_value 32 block (N.of_nat i) = sha1_blk block i.
+Proof.
+  intros block i Hi Hb.
+  assert (Hs : blk_idx_ok i = true).
+  { pose proof blk_idx_sweep as S. rewrite forallb_forall in S. apply S. apply in_seq. lia. }
+  unfold blk_idx_ok in Hs. repeat (apply andb_prop in Hs; destruct Hs as [Hs ?]).
+  repeat match goal with H : Nat.eqb _ _ = true |- _ => apply Nat.eqb_eq in H end.
+  split; [assumption|].
+  unfold S1.src_SHA1_BLK_value, sha1_blk.
+  change (S1.src_SHA1_BLK_index 32 (N.of_nat i)) with (N.land (N.of_nat i) 15) in *.
+  repeat match goal with H : N.to_nat _ = _ |- _ => rewrite H; clear H end.
+  apply tie_sha1_rol. repeat apply lxor_word; apply Hb.
+Qed.
+
 (* ---- codec alphabets (RFC 4648 tables 1, 2, 3; Base36 digits) ---- *)
 Theorem tie_b64 : src_b64_std = b64_spec_alphabet false /\ src_b64_url = b64_spec_alphabet true.
 Proof. split; reflexivity. Qed.
@@ -56,4 +103,5 @@ Theorem tie_b36 : src_b36 = map digit_char (map N.of_nat (seq 0 36)).   Proof. r
 Print Assumptions tie_K256. Print Assumptions tie_K512. Print Assumptions tie_IV256. Print Assumptions tie_IV512.
 Print Assumptions tie_rounds. Print Assumptions tie_IV1. Print Assumptions tie_K1.
 Print Assumptions tie_256_funcs. Print Assumptions tie_512_funcs. Print Assumptions tie_256_sched. Print Assumptions tie_512_sched.
-Print Assumptions tie_256_round. Print Assumptions tie_512_round. Print Assumptions tie_b64. Print Assumptions tie_b32. Print Assumptions tie_b36.
+Print Assumptions tie_256_round. Print Assumptions tie_512_round. Print Assumptions tie_sha1_rol. Print Assumptions tie_sha1_rounds. Print Assumptions tie_sha1_blk.
+Print Assumptions tie_b64. Print Assumptions tie_b32. Print Assumptions tie_b36.
